@@ -56,7 +56,10 @@ pub enum InClass {
     Random { nonce: [u8; 12] },
     Message { gen: usize, msg: RefMessage, nonce: [u8; 12] },
     WhoAreYou { request_nonce: [u8; 12] },
-    Handshake { msg: RefMessage, honest: bool },
+    /// `answers` is the challenge-data of the WHOAREYOU this handshake was built for.
+    Handshake { msg: RefMessage, honest: bool, answers: Vec<u8> },
+    /// A previously injected datagram injected again (possibly from another address).
+    Replay { of: Box<InClass>, same_source: bool },
     /// Anything crafted by an attack script, with a free-form label.
     Crafted(String),
 }
@@ -422,7 +425,7 @@ impl Engine {
                 }
                 // the handshake packet itself may be challenged again
                 p.pending_out.insert(out.nonce, msg.clone());
-                self.send_to_victim(i, addr, out.datagram, InClass::Handshake { msg, honest: true });
+                self.send_to_victim(i, addr, out.datagram, InClass::Handshake { msg, honest: true, answers: dec.aad.clone() });
             }
             RefKind::Handshake { .. } => {
                 let res = self.peers[i].sim.accept_handshake(&vid, &vpub, &dec);
@@ -732,7 +735,8 @@ pub fn show_in(c: &InClass) -> String {
         InClass::Random { nonce } => format!("RANDOM nonce {}", hx(&nonce[..4])),
         InClass::Message { gen, msg, .. } => format!("MESSAGE gen {gen} {}", show_msg(msg)),
         InClass::WhoAreYou { request_nonce } => format!("WHOAREYOU echoing {}", hx(&request_nonce[..4])),
-        InClass::Handshake { msg, honest } => format!("HANDSHAKE honest={honest} {}", show_msg(msg)),
+        InClass::Handshake { msg, honest, .. } => format!("HANDSHAKE honest={honest} {}", show_msg(msg)),
+        InClass::Replay { of, same_source } => format!("REPLAY (same source: {same_source}) of {}", show_in(of)),
         InClass::Crafted(s) => format!("CRAFTED {s}"),
     }
 }
